@@ -282,7 +282,21 @@ def stage_oracle(ctx: Ctx, progs):
                 continue
             inside = [f for f, l in located if (ln, col) <= (l[0], l[1]) and (l[2], l[3]) <= (eln, ecol)]
             want_in = inside[0] if inside else None
-            if (got_in is None) != (want_in is None) or (got_in is not None and tuple(got_in.loc) != tuple(want_in.loc) and got_in is not want_in):
+            def in_debug_field(n):
+                # the Constant that holds the text of a self-documenting f-string field OVERLAPS the field that follows it (CPython's positions): siblings that overlap are outside
+                # what the search functions are written for (find_contains_loc copes, find_in_loc descends into the Constant and stops there)
+                while n is not None:
+                    if isinstance(n.a, ast.FormattedValue) and n.parent is not None:
+                        for sib in n.parent.a.values:
+                            sf = getattr(sib, 'f', None)
+                            if sf is not None and sf is not n and isinstance(sib, ast.Constant) and sf.loc is not None and (sf.loc[2], sf.loc[3]) > (n.loc[0], n.loc[1]) and (sf.loc[0], sf.loc[1]) < (n.loc[0], n.loc[1]):
+                                return True
+                    n = n.parent
+                return False
+            if got_in is None and want_in is not None and in_debug_field(want_in):
+                ctx.violation('find_in_loc|debug-field-overlap', 'find_in_loc finds nothing although a node of a self-documenting f-string field lies inside the rectangle',
+                              {'src': src, 'rect': rect, 'got': repr(got_in), 'want': repr(want_in)})
+            elif (got_in is None) != (want_in is None) or (got_in is not None and tuple(got_in.loc) != tuple(want_in.loc) and got_in is not want_in):
                 # the first node in walk order entirely inside the rectangle
                 ctx.violation('find_in_loc', 'find_in_loc differs from the brute-force first node inside the rectangle',
                               {'src': src, 'rect': rect, 'got': repr(got_in), 'want': repr(want_in)})
